@@ -91,6 +91,11 @@ pub fn candidates(prop: &str) -> Vec<Value> {
                 v.push(json!({"call": "timelock", "group": g, "scheme": scheme_name(s), "kind": kind}));
             }}}
         }
+        "C12" => {
+            for g in ["G1", "G2"] { for s in schemes() { for kind in ["share_verifies", "other_participant", "other_ciphertext", "t_shares_decrypt", "key_from_shares"] {
+                v.push(json!({"call": "thr_signcrypt", "group": g, "scheme": scheme_name(s), "kind": kind}));
+            }}}
+        }
         "C10" => {
             for g in ["G1", "G2"] { for s in schemes() { for kind in ["complete", "other_challenge", "other_msg", "other_key", "tamper_u", "tamper_v", "ts_no_timeout", "ts_within", "ts_elapsed", "ts_altered", "ts_future", "ts_max"] {
                 v.push(json!({"call": "pok", "group": g, "scheme": scheme_name(s), "kind": kind}));
@@ -117,6 +122,7 @@ pub fn run(c: &Value) -> Option<String> {
         "aggregate" => by_group!(c, aggregate),
         "multi" => by_group!(c, multi),
         "pok" => by_group!(c, pok),
+        "thr_signcrypt" => by_group!(c, thr_signcrypt),
         "timelock" => by_group!(c, timelock),
         "signcrypt" => by_group!(c, signcrypt),
         "codec" => by_group!(c, codec),
@@ -494,5 +500,24 @@ fn timelock<C: BlsSignatureImpl + PartialEq + Copy>(c: &Value, keys: &[SecretKey
         "flip_padding" => { let mut t = ct.clone(); let n = t.w.len(); t.w[n - 1] ^= 1; match opens_to(&t, &sig) { Some(p) if p != m => Some("padding flip yields a DIFFERENT message".into()), _ => None } }
         "extend_padding" => { let mut t = ct.clone(); t.w.push(7); match opens_to(&t, &sig) { Some(p) if p != m => Some("extension yields a DIFFERENT message".into()), _ => None } }
         _ => { let mut t = ct.clone(); t.w = vec![]; let _ = opens_to(&t, &sig); None }
+    }
+}
+
+fn thr_signcrypt<C: BlsSignatureImpl + PartialEq + Copy>(c: &Value, keys: &[SecretKey<C>]) -> Option<String> {
+    use rand_core::SeedableRng;
+    let s = scheme_of(&c["scheme"]);
+    let sk = &keys[3];
+    let pk = sk.public_key();
+    let m = b"threshold secret".to_vec();
+    let ct = pk.sign_crypt(s, &m);
+    let shares = sk.split_with_rng(2, 3, rand_chacha::ChaCha20Rng::from_seed([5u8; 32])).ok()?;
+    let ds: Vec<SignDecryptionShare<C>> = shares.iter().map(|x| ct.create_decryption_share(x).unwrap()).collect();
+    let pks: Vec<PublicKeyShare<C>> = shares.iter().map(|x| x.public_key().unwrap()).collect();
+    match c["kind"].as_str().unwrap() {
+        "share_verifies" => { for i in 0..3 { if let Err(e) = ds[i].verify(&pks[i], &ct) { return Some(format!("honest decryption share {} of a {} ciphertext rejected: {}", i + 1, scheme_name(s), e)); } } None }
+        "other_participant" => if ds[0].verify(&pks[1], &ct).is_ok() { Some("share accepted against another participant's key share".into()) } else { None },
+        "other_ciphertext" => { let ct2 = pk.sign_crypt(s, b"another"); if ds[0].verify(&pks[0], &ct2).is_ok() { Some("share accepted for another ciphertext".into()) } else { None } }
+        "t_shares_decrypt" => match Option::<Vec<u8>>::from(ct.decrypt_with_shares(&ds[..2])) { Some(p) if p == m => None, _ => Some("2 of 3 shares do not decrypt".into()) },
+        _ => { let k = SignCryptDecryptionKey::<C>::from_shares(&ds[1..]).ok()?; match Option::<Vec<u8>>::from(k.decrypt(&ct)) { Some(p) if p == m => None, _ => Some("combined decryption key does not decrypt".into()) } }
     }
 }
